@@ -26,6 +26,14 @@ def universe(rng, n, kinds=("str", "bytes")):
             k = "".join(rng.choice(alphabet) for _ in range(rng.randint(1, 10)))
         if k not in keys:
             keys.append(k)
+    if "str" in kinds and "bytes" in kinds and n >= 3 and rng.random() < 0.15:
+        # a text key together with the bytes of its UTF-8 encoding: two different keys to every table and model, although they hash
+        # alike under most strategies (for non-ASCII text the default FNV-1a tells them apart)
+        src = [k for k in keys if isinstance(k, str)]
+        if src:
+            twin = to_bytes(rng.choice(src))
+            if twin not in keys:
+                keys[-1] = twin
     return keys
 
 
@@ -145,14 +153,17 @@ def pick_hash(rng, keys, kind=None):
 # simple hashes for cuckoo: hf(key) -> int    and quotient filter: hf(key, seed) -> 32 bit int
 
 class SimpleTable:
-    def __init__(self, name, table, bits=64):
+    def __init__(self, name, table, bits=64, salt=b""):
         self.name = name
         self.table = table
         self.bits = bits
+        self.salt = salt  # non-empty: keys outside the table do NOT hash like the library default either
 
     def __call__(self, key, seed=0):
         if key in self.table:
             return self.table[key]
+        if self.salt:
+            return refimpl.fnv1a_64(to_bytes(key) + self.salt, seed) & ((1 << self.bits) - 1)
         if self.bits == 32:
             return refimpl.fnv1a_32(to_bytes(key), seed)
         return refimpl.fnv1a_64(to_bytes(key), seed)
